@@ -181,7 +181,8 @@ func (c19) Run(e *Env) {
 	sock := NewSimSocket()
 	dch := make(chan []*statsd.Datagram)
 	nParsers := e.Range(1, 2)
-	parser := statsd.NewDatagramParser(dch, "", false, 0, ch, 0, false, logrus.StandardLogger())
+	// ignore-host concerns metrics only: an event keeps its sender's address and all of its tags
+	parser := statsd.NewDatagramParser(dch, "", e.Chance(1, 3), 0, ch, 0, false, logrus.StandardLogger())
 	recv := statsd.NewDatagramReceiver(dch, func() (net.PacketConn, error) { return sock, nil }, 1, 1)
 	srv, err := web.NewHttpServer(logrus.StandardLogger(), ch, "in", "in", false, false, true, false, nil, nil)
 	if err != nil {
@@ -480,6 +481,9 @@ func (c19) Run(e *Env) {
 			}
 			if e.Chance(1, 4) {
 				ev.Tags = append(ev.Tags, "static:1")
+			}
+			if e.Chance(1, 4) {
+				ev.Tags = append(ev.Tags, "host:web-7")
 			}
 			if !utf8.ValidString(text) && e.Bool() {
 				ev.Tags = append(ev.Tags, "zone:\xfe\xfe")
